@@ -27,8 +27,8 @@ static void bp_slot_check(const char *where)
 			tid, (void *) slot_of[tid], (void *) p, where);
 }
 
-enum { OP_READ, OP_UPDATE, OP_SYNC, OP_LITMUS_W, OP_QS, OP_OFFON, OP_REREG, OP_NKINDS };
-static const char *const opname[] = { "read", "update", "sync", "litmus_w", "qs", "offon", "rereg" };
+enum { OP_READ, OP_UPDATE, OP_SYNC, OP_LITMUS_W, OP_QS, OP_OFFON, OP_REREG, OP_SPAWN, OP_NKINDS };
+static const char *const opname[] = { "read", "update", "sync", "litmus_w", "qs", "offon", "rereg", "spawn_in_cs" };
 
 struct obj {
 	long version;
@@ -80,7 +80,7 @@ static struct obj *new_obj(void)
 	return o;
 }
 
-static void qsbr_close(int me)
+HARNESS_BOOKKEEPING static void qsbr_close(int me)
 {
 	if (F->is_qsbr && qcs[me] >= 0) {
 		orc_cs_end(qcs[me]);
@@ -88,7 +88,7 @@ static void qsbr_close(int me)
 	}
 }
 
-static void qsbr_open(int me)
+HARNESS_BOOKKEEPING static void qsbr_open(int me)
 {
 	if (F->is_qsbr)
 		qcs[me] = orc_cs_begin(me);
@@ -163,6 +163,55 @@ static void do_litmus_w(int me)
 	uatomic_set(&ly[me], n);
 }
 
+/*
+ * A short-lived thread that registers, reads and unregisters. Its creator
+ * starts and joins it from INSIDE a read-side critical section (qsbr: while
+ * online), so a grace period that is in progress is waiting for the creator
+ * while the child (un)registers: registration must not depend on that grace
+ * period making progress (C15: "at any moment relative to running grace periods").
+ */
+static void *spawned_child(void *arg)
+{
+	int who = 30 + (int) (long) arg, cs;
+	struct obj *p;
+
+	usim_thread_name("child-of-script%d", who - 30);
+	if (!F->is_bp)
+		F->register_thread();
+	if (F->is_qsbr) {
+		cs = orc_cs_begin(who);
+	} else {
+		F->read_lock();
+		cs = orc_cs_begin(who);
+	}
+	p = rcu_dereference(gptr);
+	if (p->a != p->version * 3 + 1 || p->b != p->version * 7 + 2)
+		usim_fail("reclaimed-object-read", "short-lived reader saw a reclaimed object");
+	orc_cs_end(cs);
+	if (!F->is_qsbr)
+		F->read_unlock();
+	if (!F->is_bp)
+		F->unregister_thread();
+	return NULL;
+}
+
+static void do_spawn(int me)
+{
+	pthread_t th;
+	int cs = -1;
+
+	if (!F->is_qsbr) {
+		F->read_lock();
+		cs = orc_cs_begin(me);
+	}
+	pthread_create(&th, NULL, spawned_child, (void *) (long) me);
+	pthread_join(th, NULL);
+	if (!F->is_qsbr) {
+		orc_cs_end(cs);
+		F->read_unlock();
+	}
+}
+
 static void *gp_thread(void *arg)
 {
 	struct script *s = arg;
@@ -212,6 +261,7 @@ static void *gp_thread(void *arg)
 				qsbr_open(me);
 			}
 			break;
+		case OP_SPAWN: do_spawn(me); break;
 		case OP_REREG:
 			if (!F->is_bp) {
 				int k;
@@ -259,6 +309,8 @@ static void gen(int live)
 				op->kind = rnd(2) ? OP_QS : OP_OFFON;
 			else if (r < (uint32_t) rd + (uint32_t) rr && !F->is_bp)
 				op->kind = OP_REREG;
+			else if (r >= 100 - (reg_mode ? 10u : 3u))
+				op->kind = OP_SPAWN;
 			else {
 				static const int upd[] = { OP_UPDATE, OP_UPDATE, OP_SYNC, OP_LITMUS_W };
 				op->kind = pick(upd, 4);
@@ -334,8 +386,14 @@ static void run_common(int live)
 		/* slots of exited threads are reused: the late wave (<= 2 threads, capacity >= 2) maps nothing */
 		{
 			int n1 = 0;
-			for (t = 0; t < nthreads; t++)
-				n1 += !scripts[t].skip && wave[t] == 1;
+			for (t = 0; t < nthreads; t++) {
+				int i2, spawns = 0;
+				if (scripts[t].skip || wave[t] != 1)
+					continue;
+				for (i2 = 0; i2 < scripts[t].nops; i2++)
+					spawns |= !scripts[t].ops[i2].skip && scripts[t].ops[i2].kind == OP_SPAWN;
+				n1 += 1 + spawns;	/* a short-lived child lives next to its creator */
+			}
 			if (n1 > bp_cap)
 				registered_in_wave0 = 0;	/* growth may be legitimately needed */
 		}
